@@ -39,6 +39,43 @@ pub proof fn pf_line_comments(n: &SyntaxNode)
         n.kind_s() == SyntaxKind::Markup || is_item_kind(n.kind_s()) ==> lc_followed_markup(n.children_s()),
         n.kind_s() != SyntaxKind::Markup ==> !last_is_lc(n.children_s()),
 {}
+/// PF18: an import statement ends with its last token (trailing whitespace and comments stay outside the node), and an
+/// ImportItems node without items only occurs inside parentheses (`import "a": ()`) or directly after the colon (`import "a":`)
+#[verifier::external_body]
+pub proof fn pf_import_end(n: &SyntaxNode)
+    requires tree_wf(n), n.kind_s() == SyntaxKind::ModuleImport,
+    ensures
+        n.children_s().len() > 0 ==> n.children_s().last().kind_s() != SyntaxKind::Space && n.children_s().last().kind_s() != SyntaxKind::Parbreak
+            && n.children_s().last().kind_s() != SyntaxKind::LineComment && n.children_s().last().kind_s() != SyntaxKind::BlockComment,
+{}
+#[verifier::external_body]
+pub proof fn pf_import_empty_items(n: &SyntaxNode, j: int)
+    requires tree_wf(n), n.kind_s() == SyntaxKind::ModuleImport, 0 <= j < n.children_s().len(),
+        n.children_s()[j].kind_s() == SyntaxKind::ImportItems, n.children_s()[j].children_s().len() == 0,
+    ensures (exists|i: int| 0 <= i < j && (#[trigger] n.children_s()[i]).kind_s() == SyntaxKind::LeftParen) || (j > 0 && n.children_s()[j - 1].kind_s() == SyntaxKind::Colon),
+{}
+pub proof fn lemma_lc_followed_concat(a: Seq<&SyntaxNode>, b: Seq<&SyntaxNode>)
+    requires lc_followed(a), lc_followed(b), !last_is_lc(a),
+    ensures lc_followed(a + b), last_is_lc(a + b) == last_is_lc(b) || b.len() == 0,
+{
+    let s = a + b;
+    assert forall|j: int| 0 <= j && j + 1 < s.len() && (#[trigger] s[j]).kind_s() == SyntaxKind::LineComment implies is_nl_space(s[j + 1]) by {
+        if j + 1 < a.len() { assert(s[j] == a[j] && s[j + 1] == a[j + 1]); }
+        else if j >= a.len() { assert(s[j] == b[j - a.len()] && s[j + 1] == b[j + 1 - a.len()]); }
+        else { assert(s[j] == a.last()); }
+    }
+    if b.len() > 0 { assert(s.last() == b.last()); } else { assert(s =~= a); }
+}
+pub proof fn lemma_lc_followed_push(a: Seq<&SyntaxNode>, n: &SyntaxNode)
+    requires lc_followed(a), last_is_lc(a) ==> is_nl_space(n),
+    ensures lc_followed(a.push(n)),
+{
+    let s = a.push(n);
+    assert forall|j: int| 0 <= j && j + 1 < s.len() && (#[trigger] s[j]).kind_s() == SyntaxKind::LineComment implies is_nl_space(s[j + 1]) by {
+        if j + 1 < a.len() { assert(s[j] == a[j] && s[j + 1] == a[j + 1]); }
+        else { assert(s[j] == a.last()); assert(s[j + 1] == n); }
+    }
+}
 /// PF2: leaf texts. A LineComment's text starts with `//` and contains no newline; no other leaf's text starts with `//`
 /// except inside Text/Raw/Str/Link tokens, which the printer emits verbatim; a BlockComment's text starts with `/*`.
 pub open spec fn lc_text(s: Seq<char>) -> bool { is_lc(s) && !has_newline_s(s) }
